@@ -460,19 +460,19 @@ func nullBytes(s *Stream) error {
 	// current cursor's character is 'n'
 	s.cursor++
 	if s.char() != 'u' {
-		if err := retryReadNull(s); err != nil {
+		if err := retryReadNull(s, 'u'); err != nil {
 			return err
 		}
 	}
 	s.cursor++
 	if s.char() != 'l' {
-		if err := retryReadNull(s); err != nil {
+		if err := retryReadNull(s, 'l'); err != nil {
 			return err
 		}
 	}
 	s.cursor++
 	if s.char() != 'l' {
-		if err := retryReadNull(s); err != nil {
+		if err := retryReadNull(s, 'l'); err != nil {
 			return err
 		}
 	}
@@ -480,30 +480,36 @@ func nullBytes(s *Stream) error {
 	return nil
 }
 
-func retryReadNull(s *Stream) error {
-	if s.char() == nul && s.read() {
-		return nil
+func retryReadNull(s *Stream, want byte) error {
+	// refill while the window is exhausted, then the expected byte must be there
+	for s.char() == nul {
+		if !s.read() {
+			return errors.ErrUnexpectedEndOfJSON("null", s.totalOffset())
+		}
 	}
-	return errors.ErrInvalidCharacter(s.char(), "null", s.totalOffset())
+	if s.char() != want {
+		return errors.ErrInvalidCharacter(s.char(), "null", s.totalOffset())
+	}
+	return nil
 }
 
 func trueBytes(s *Stream) error {
 	// current cursor's character is 't'
 	s.cursor++
 	if s.char() != 'r' {
-		if err := retryReadTrue(s); err != nil {
+		if err := retryReadTrue(s, 'r'); err != nil {
 			return err
 		}
 	}
 	s.cursor++
 	if s.char() != 'u' {
-		if err := retryReadTrue(s); err != nil {
+		if err := retryReadTrue(s, 'u'); err != nil {
 			return err
 		}
 	}
 	s.cursor++
 	if s.char() != 'e' {
-		if err := retryReadTrue(s); err != nil {
+		if err := retryReadTrue(s, 'e'); err != nil {
 			return err
 		}
 	}
@@ -511,36 +517,42 @@ func trueBytes(s *Stream) error {
 	return nil
 }
 
-func retryReadTrue(s *Stream) error {
-	if s.char() == nul && s.read() {
-		return nil
+func retryReadTrue(s *Stream, want byte) error {
+	// refill while the window is exhausted, then the expected byte must be there
+	for s.char() == nul {
+		if !s.read() {
+			return errors.ErrUnexpectedEndOfJSON("bool(true)", s.totalOffset())
+		}
 	}
-	return errors.ErrInvalidCharacter(s.char(), "bool(true)", s.totalOffset())
+	if s.char() != want {
+		return errors.ErrInvalidCharacter(s.char(), "bool(true)", s.totalOffset())
+	}
+	return nil
 }
 
 func falseBytes(s *Stream) error {
 	// current cursor's character is 'f'
 	s.cursor++
 	if s.char() != 'a' {
-		if err := retryReadFalse(s); err != nil {
+		if err := retryReadFalse(s, 'a'); err != nil {
 			return err
 		}
 	}
 	s.cursor++
 	if s.char() != 'l' {
-		if err := retryReadFalse(s); err != nil {
+		if err := retryReadFalse(s, 'l'); err != nil {
 			return err
 		}
 	}
 	s.cursor++
 	if s.char() != 's' {
-		if err := retryReadFalse(s); err != nil {
+		if err := retryReadFalse(s, 's'); err != nil {
 			return err
 		}
 	}
 	s.cursor++
 	if s.char() != 'e' {
-		if err := retryReadFalse(s); err != nil {
+		if err := retryReadFalse(s, 'e'); err != nil {
 			return err
 		}
 	}
@@ -548,9 +560,15 @@ func falseBytes(s *Stream) error {
 	return nil
 }
 
-func retryReadFalse(s *Stream) error {
-	if s.char() == nul && s.read() {
-		return nil
+func retryReadFalse(s *Stream, want byte) error {
+	// refill while the window is exhausted, then the expected byte must be there
+	for s.char() == nul {
+		if !s.read() {
+			return errors.ErrUnexpectedEndOfJSON("bool(false)", s.totalOffset())
+		}
 	}
-	return errors.ErrInvalidCharacter(s.char(), "bool(false)", s.totalOffset())
+	if s.char() != want {
+		return errors.ErrInvalidCharacter(s.char(), "bool(false)", s.totalOffset())
+	}
+	return nil
 }
